@@ -44,6 +44,13 @@ class _Sub(_Base):
         self.x = 1
 
 
+class _SubRejected(_Base):
+    """An instance the serialisation handler of its base class refuses (the handler raises)."""
+
+    def __init__(self):
+        self.x = 2
+
+
 class _BadDump(object):
     """An object whose conversion to JSON fails inside jsonclass.dump."""
 
@@ -52,6 +59,8 @@ class _BadDump(object):
 
 
 def _base_handler(obj, serialize_method, ignore_attribute, ignore, config):
+    if isinstance(obj, _SubRejected):
+        raise ValueError("this value cannot be converted")
     return {"handled": type(obj).__name__}
 
 
@@ -175,6 +184,8 @@ class SysRun(object):
                     return _Sub()
                 if kind == "baddump":
                     return _BadDump()
+                if kind == "subrejected":
+                    return _SubRejected()
                 if kind == "fault":
                     from jsonrpclib import Fault
 
@@ -286,6 +297,7 @@ class SysRun(object):
                             content_type=sv.get("content_type", "application/json-rpc"))
         if sv.get("handlers"):
             cfg.serialize_handlers[_Base] = _base_handler
+            cfg.serialize_handlers[_SubRejected] = _base_handler  # registered for the exact type: it raises for it
         return cfg
 
     # -- server --------------------------------------------------------------------
@@ -340,8 +352,9 @@ class SysRun(object):
             self.shared_pool = True
             self.server.set_notification_pool(self.user_pool)
         elif sv.get("npool") and sv.get("npool") != "shared":
-            mx, mn = sv["npool"]
-            self.npool = self.tp.ThreadPool(mx, mn, timeout=sv.get("pool_timeout", 4.0), logname="notifpool")
+            mx, mn = sv["npool"][:2]
+            qsize = sv["npool"][2] if len(sv["npool"]) > 2 else 0  # 0: unbounded
+            self.npool = self.tp.ThreadPool(mx, mn, queue_size=qsize, timeout=sv.get("pool_timeout", 4.0), logname="notifpool")
             self.npool.start()
             self.server.set_notification_pool(self.npool)
         self.register_all(self.server)
@@ -527,6 +540,20 @@ class SysRun(object):
                 sock.sendall(head + body)
             elif mode == "garbage":
                 sock.sendall(b"\x00\xff\x16\x03\x01 not http at all\r\n\r\n")
+            elif mode == "no-length":
+                # a body without Content-Length, and a client that keeps its connection open until it is answered
+                # (or the server closes): the server cannot know where the body ends
+                sock.sendall(b"POST / HTTP/1.0\r\nContent-Type: application/json-rpc\r\n\r\n" + body)
+                got = b""
+                try:
+                    while b"\r\n\r\n" not in got:
+                        b = sock.recv(65536)
+                        if not b:
+                            break
+                        got += b
+                except OSError:
+                    pass
+                mode = "no-length:" + ("answered" if got.startswith(b"HTTP/") else "closed")
         finally:
             sock.close()
         return mode
